@@ -53,4 +53,19 @@ CHECKS = {
         ref="5 C05", note="Trusted: TLC, the BGZF block walker / line splitters in harness/readers.py, pickle. Bounds: reference chain <=3 (quick) / <=4 (thorough) segments of length 1-2, <=2 haplotype segments, walks <=2-3 steps, <=1-2 unaligned nodes; stable files are gaftools' own conversions of the unstable ones. Region end inclusive/exclusive both accepted (DESIGN 7.3).",
         technique="TLC bounded enumeration + exhaustive region queries through gaftools view; TLC validation against Must/May node sets",
     ),
+    "C08": dict(
+        text="SortGaf.tla defines the sort key (anchor, BO, NO, start, reversal by scaffold majority), the strict total order Less and the two-pass machine; TLC checks Less is a strict total order, that the machine's order is accepted and the index exact on every enumerated file; gaftools sort runs on every enumerated file (all sequences = all permutations) and on seeded random files; TLC (Check_Sort.V08) decides order, stable ties, untagged-last.",
+        ref="5 C08", note="Trusted: TLC, the line/BGZF readers in harness/readers.py and sort_common.line_starts, pickle. The tagged graph and the record pool are data files shared by the spec and the harness (spec/data/sort_*.json). Bounds: files of <=2 (quick) / <=3 (thorough) pool records exhaustively, random files of <=40 records, multi-block BGZF in thorough.",
+        technique="TLC model checking of SortGaf.tla + replay of every enumerated file through gaftools sort; TLC validation of the output order",
+    ),
+    "C09": dict(
+        text="Same runs; TLC (Check_Sort.V09) decides that the output is a permutation of the input lines (exact prefix match), that exactly three fields are appended and that bo/sn/iv equal the oracle (KeyBO, Sn, Iv), over plain/BGZF input and plain/--bgzip output.",
+        ref="5 C09", note="Trusted: TLC, the line/BGZF readers in harness/readers.py and sort_common.line_starts, pickle. The tagged graph and the record pool are data files shared by the spec and the harness (spec/data/sort_*.json). Bounds: files of <=2 (quick) / <=3 (thorough) pool records exhaustively, random files of <=40 records, multi-block BGZF in thorough.",
+        technique="TLC bounded enumeration replayed through gaftools sort; TLC validation of permutation and appended fields",
+    ),
+    "C10": dict(
+        text="Same runs with default .gsi and --outind; the harness resolves the pickled offsets to output ordinals with its own plain/BGZF line-start table and seeks with GAF.read_line; TLC (Check_Sort.V10) decides completion, absence of 'unknown', contig set, first/last ordinals against GsiOf.",
+        ref="5 C10", note="Trusted: TLC, the line/BGZF readers in harness/readers.py and sort_common.line_starts, pickle. The tagged graph and the record pool are data files shared by the spec and the harness (spec/data/sort_*.json). Bounds: files of <=2 (quick) / <=3 (thorough) pool records exhaustively, random files of <=40 records, multi-block BGZF in thorough.",
+        technique="TLC model checking of the WriteRecord/Finish machine + TLC validation of the resolved .gsi against GsiOf",
+    ),
 }
